@@ -274,6 +274,39 @@ def short_message(direction, n):
             5: __import__("pymodbus.register_write_message", fromlist=["x"]).WriteSingleRegisterResponse(1, 2)}[n]
 
 
+def extreme_messages(direction, r):
+    """(label, message object or None, pdu bytes) at the size extremes: PDU length 1, 2, 252, 253.
+    (The client decoder accepts no 1-byte PDU; the 2-byte request is a raw ReadExceptionStatus + 1 byte.)"""
+    from pymodbus import file_message as fm, other_message as om, register_write_message as rwm
+    from pymodbus import register_read_message as rrm, bit_read_message as brm, bit_write_message as bwm, pdu
+    w = lambda: r.choice([0x3a0d, 0x0d0a, 0x7b7d, 0xffff, 0, r.randrange(65536)])  # noqa: E731
+    if direction == "server":
+        ms = [("len1-slaveid", om.ReportSlaveIdRequest()), ("len1-excstatus", om.ReadExceptionStatusRequest()),
+              ("len1-evcounter", om.GetCommEventCounterRequest()), ("len1-evlog", om.GetCommEventLogRequest()),
+              ("len252-wmr123", rwm.WriteMultipleRegistersRequest(w(), [w() for _ in range(123)])),
+              ("len253-wfr122", fm.WriteFileRecordRequest([fm.FileRecord(file_number=1, record_number=2,
+                                                            record_data=bytes(r.randrange(256) for _ in range(244)))])),
+              ("len253-wmc1976", bwm.WriteMultipleCoilsRequest(w(), [r.random() < 0.5 for _ in range(1976)]))]
+        out = [(l, m, pdu_of(m)) for l, m in ms] + [("len2-raw", None, bytes([0x07, r.randrange(256)]))]
+    else:
+        ms = [("len2-excstatus", om.ReadExceptionStatusResponse(r.randrange(256))), ("len2-exception", pdu.ExceptionResponse(3, 2)),
+              ("len252-rhr125", rrm.ReadHoldingRegistersResponse([w() for _ in range(125)])),
+              ("len253-rc2008", brm.ReadCoilsResponse([r.random() < 0.5 for _ in range(2008)])),
+              ("len253-slaveid250", om.ReportSlaveIdResponse(bytes(r.randrange(256) for _ in range(250))))]
+        out = [(l, m, pdu_of(m)) for l, m in ms]
+    for l, m, p in out:
+        want = int(l[3:l.index("-")])
+        assert len(p) == want, (l, len(p))
+    return out
+
+
+def key_cuts(kind, n):
+    """cut positions behind the header, in the middle and just before the end of an n-byte frame"""
+    hdr = [1, 6, 7, 8, 9] if kind == "tcp" else [1, 2, 3, 5]
+    tail = [n - 3, n - 2, n - 1]
+    return sorted(set(c for c in hdr + [n // 2] + tail if 0 < c < n))
+
+
 def pdu_of(m):
     return bytes([m.function_code & 0xff]) + m.encode()
 
@@ -328,6 +361,11 @@ def suite_build(tier):
                 vals = [((base + i) << 8) | ((base + i) ^ 0x5a if i % 2 else (base + i)) for i in range(8)]
                 m = rwm.WriteMultipleRegistersRequest(base, vals) if direction == "server" else rrm.ReadHoldingRegistersResponse(vals)
                 cases.append(build_case(kind, m, base * 257, 0, base, "bytes"))
+        # size extremes: PDU length 1, 2, 252, 253
+        for direction in ("server", "client"):
+            for label, m, _ in extreme_messages(direction, r):
+                if m is not None:
+                    cases.append(build_case(kind, m, r.choice([0, 65535, r.randrange(65536)]), 0, r.choice([0, 1, 247, 255]), label))
         # header fields out of range
         for tid, pid, uid in ((65536, 0, 1), (-1, 0, 1), (1, 65536, 1), (1, 0, 256), (1, 0, -1), (70000, 0, 300)):
             cases.append(build_case(kind, rrm.ReadHoldingRegistersRequest(1, 1), tid, pid, uid, "range"))
@@ -403,7 +441,13 @@ def suite_whole(tier):
                         else:
                             label = "whole"
                         cases.append(feed_case(kind, direction, units, single, [f], [adu(kind, f)], label))
-    return Suite("a_whole", IMPORTS, "chk_c06", cases, shard=300)
+            for label, _, p in extreme_messages(direction, r):
+                uid = r.choice([1, 17, 247, 255])
+                f = (r.choice([0, 65535, r.randrange(65536)]), 0, uid, p) if kind == "tcp" else (0, 0, uid if kind == "ascii" else 0, p)
+                for units, single in ([uid], False), ([uid], None), ([9], True):
+                    lab = "tls-multi-unit" if (kind == "tls" and single is False) else "whole-" + label
+                    cases.append(feed_case(kind, direction, units, single, [f], [adu(kind, f)], lab))
+    return Suite("a_whole", IMPORTS, "chk_c06", cases, shard=150)
 
 
 # ----------------------------------------------------------------------------- C06
@@ -487,6 +531,39 @@ def suite_cuts_multi(tier):
     return Suite("a_cuts_multi", IMPORTS, "chk_c06", cases, shard=300)
 
 
+def suite_cuts_extreme(tier):
+    """frames at the size extremes (PDU 1, 2, 252, 253 bytes) cut behind the header, in the middle and just
+    before the end; alone and next to a small frame"""
+    r = common.rng("a_cuts_extreme")
+    cases = []
+    for kind in ("tcp", "ascii"):
+        for direction in ("server", "client"):
+            for label, _, p in extreme_messages(direction, r):
+                uid = r.choice([1, 17, 247])
+                mk = (lambda pdu: (r.choice([1, 0x1234, 65535]), 0, uid, pdu)) if kind == "tcp" else (lambda pdu: (0, 0, uid, pdu))
+                f = mk(p)
+                small = mk(rand_frame(r, direction, uid, small=True)[3])
+                units, single = r.choice([([uid], False), ([uid, 3], None), ([9], True)])
+                a = adu(kind, f)
+                n = len(a)
+                ks = key_cuts(kind, n)
+                cuts = [()] + [(c,) for c in ks] + [(x, y) for x in ks for y in ks if x < y and (x <= 9 and y >= n // 2 or x == n // 2)]
+                if tier != "quick":
+                    cuts += [tuple(sorted(r.sample(range(1, n), min(n - 1, k)))) for k in (3, 5, 9) for _ in range(10)]
+                for cs in cuts:
+                    cases.append(feed_case(kind, direction, units, single, [f], cut(a, cs), "extreme-" + label))
+                # next to a small frame: cuts inside the extreme frame's body, at the joint and in the neighbour
+                for frames in ([f, small], [small, f], [f, f]):
+                    st = b"".join(adu(kind, x) for x in frames)
+                    first = len(adu(kind, frames[0]))
+                    pts = sorted(set(c for c in [first - 1, first, first + 1, first + 8, first // 2, first + (len(st) - first) // 2, len(st) - 1]
+                                     if 0 < c < len(st)))
+                    for c in pts:
+                        cases.append(feed_case(kind, direction, units, single, frames, cut(st, (c,)), "extreme2-" + label))
+                    cases.append(feed_case(kind, direction, units, single, frames, cut(st, (pts[0], pts[-1])), "extreme2-" + label))
+    return Suite("a_cuts_extreme", IMPORTS, "chk_c06", cases, shard=60)
+
+
 # ----------------------------------------------------------------------------- C07
 
 def corrupt_case(kind, direction, units, single, chunks, label, info):
@@ -530,24 +607,63 @@ def corruptions(r, frame, tier, kind):
     return out
 
 
+def corruptions_big(r, frame, tier, kind):
+    """sampled corruptions of a long frame: header / length field / middle / tail are always hit"""
+    n = len(frame)
+    key = sorted(set([0, 1, 2, 3, 4, 5, 6, 7, 8, 9, n // 2, n - 5, n - 4, n - 3, n - 2, n - 1]) & set(range(n)))
+    k = 1 if tier == "quick" else 6
+    out = []
+    bits = sorted(set([8 * i + j for i in key[:8] for j in (0, 7)] + r.sample(range(8 * n), 12 * k * k)))
+    for bit in bits:
+        b = bytearray(frame)
+        b[bit // 8] ^= 1 << (bit % 8)
+        out.append(("flip1", bytes(b)))
+    for _ in range(12 * k * k):
+        a, c = r.sample(range(8 * n), 2)
+        b = bytearray(frame)
+        b[a // 8] ^= 1 << (a % 8)
+        b[c // 8] ^= 1 << (c % 8)
+        out.append(("flip2", bytes(b)))
+    special = [0x3a, 0x0d, 0x0a, 0x20, 0x2b, 0x2d, 0x00, 0xff, 0x80]
+    for i in key + r.sample(range(n), 4 * k):
+        for v in (r.choice(special), r.randrange(256)):
+            if v != frame[i]:
+                out.append(("subst", frame[:i] + bytes([v]) + frame[i + 1:]))
+        out.append(("delete", frame[:i] + frame[i + 1:]))
+        out.append(("truncate", frame[:i]))
+        out.append(("insert", frame[:i] + bytes([r.choice(special)]) + frame[i:]))
+    out.append(("extend", frame + bytes([r.randrange(256)])))
+    out.append(("extend", frame + frame[:9]))
+    return out
+
+
 def suite_corrupt(tier):
     r = common.rng("a_corrupt")
     cases = []
     for kind in ("tcp", "ascii"):
         for direction in ("server", "client"):
             msgs = messages(direction, r, small=True)
-            picks = r.sample(msgs, 2 if tier == "quick" else 6)
-            for m in picks:
+            picks = [(type(m).__name__, pdu_of(m)) for m in r.sample(msgs, 2 if tier == "quick" else 6)]
+            ext = extreme_messages(direction, r)
+            if tier == "quick":       # one frame of each extreme size
+                seen, e2 = set(), []
+                for l, _, p in r.sample(ext, len(ext)):
+                    if len(p) not in seen and len(p) != 252:
+                        seen.add(len(p))
+                        e2.append((l, None, p))
+                ext = e2
+            picks += [(l, p) for l, _, p in ext]
+            for cname, the_pdu in picks:
                 uid = r.choice([1, 17, 247])
                 tid = r.choice([1, 0x8001, 0x0102, 0xfffe])
-                f = (tid, 0, uid, pdu_of(m)) if kind == "tcp" else (0, 0, uid, pdu_of(m))
+                f = (tid, 0, uid, the_pdu) if kind == "tcp" else (0, 0, uid, the_pdu)
                 frame = adu(kind, f)
                 g1 = rand_frame(r, direction, uid, small=True)
                 g2 = rand_frame(r, direction, uid, small=True)
                 if kind != "tcp":
                     g1, g2 = (0, 0, uid, g1[3]), (0, 0, uid, g2[3])
                 before, after = adu(kind, g1), adu(kind, g2)
-                for label, bad in corruptions(r, frame, tier, kind):
+                for label, bad in (corruptions(r, frame, tier, kind) if len(frame) <= 40 else corruptions_big(r, frame, tier, kind)):
                     ctx = r.choice(["alone", "alone", "before", "after", "both"])
                     pre = before if ctx in ("before", "both") else b""
                     post = after if ctx in ("after", "both") else b""
@@ -562,8 +678,8 @@ def suite_corrupt(tier):
                         chunks = [s[:c], s[c:]]
                     units, single = r.choice([([uid], False), ([uid], False), ([3], True), ([0], False)])
                     cases.append(corrupt_case(kind, direction, units, single, chunks, label,
-                                              {"frame": frame.hex(), "context": ctx, "class": type(m).__name__}))
-    return Suite("a_corrupt", IMPORTS, "chk_c07", cases, shard=300)
+                                              {"frame": frame.hex(), "context": ctx, "class": cname}))
+    return Suite("a_corrupt", IMPORTS, "chk_c07", cases, shard=120)
 
 
 # ----------------------------------------------------------------------------- C11 (ASCII)
@@ -616,6 +732,8 @@ def suite_resync(tier):
                     total = 0
                     while total < 2 * 513 + 150 or len(frames) < 70:
                         f = (0, 0, uid, rand_frame(r, direction, uid, small=(len(frames) % 4 != 0))[3])
+                        if rep == 0 and len(frames) in (0, 40):      # maximum-size frames: first after the garbage, and late
+                            f = (0, 0, uid, r.choice([e for e in extreme_messages(direction, r) if len(e[2]) >= 252])[2])
                         frames.append(f)
                         total += len(adu("ascii", f))
                     adus = [adu("ascii", f) for f in frames]
@@ -663,7 +781,7 @@ def suites_for(pid, tier):
     if pid == "C03":
         return [suite_build(tier), suite_lrc(tier), suite_whole(tier)]
     if pid == "C06":
-        return [suite_cuts_small(tier), suite_cuts_multi(tier)]
+        return [suite_cuts_small(tier), suite_cuts_multi(tier), suite_cuts_extreme(tier)]
     if pid == "C07":
         return [suite_corrupt(tier)]
     if pid == "C11":
@@ -793,7 +911,7 @@ def replay_case_for(pid, suite, desc):
         return None
     print(json.dumps(desc)[:3000])
     from lib import coqrun
-    if suite in ("a_whole", "a_cuts_small", "a_cuts_multi"):
+    if suite in ("a_whole", "a_cuts_small", "a_cuts_multi", "a_cuts_extreme"):
         frames = [(f[0], f[1], f[2], bytes.fromhex(f[3])) for f in desc["frames"]]
         c = feed_case(desc["framer"], desc["decoder"], desc["units"], desc["single"], frames,
                       [bytes.fromhex(x) for x in desc["chunks"]], "replay")
